@@ -229,6 +229,24 @@ Definition last_nonzero (l : list N) : bool :=
    emulated start code *)
 Definition nal_ok (n : list N) : bool := last_nonzero n && negb (has_sc n).
 
+(* The writers (C35) put a 4-byte start code before every unit.  Behind such a
+   code the reader cuts exactly three zero bytes, so a unit may end in any
+   number of zero bytes and may contain 0 0 0; what it must not contain is
+   0 0 1 (the reader would split it there).  nal_ok4 is the domain of the
+   round trip over 4-byte framing; it contains nal_ok. *)
+Fixpoint has_001 (l : list N) : bool :=
+  match l with
+  | [] => false
+  | a :: t =>
+      match t with
+      | b :: c :: _ => (a =? 0) && (b =? 0) && (c =? 1)
+      | _ => false
+      end || has_001 t
+  end.
+
+Definition nal_ok4 (n : list N) : bool :=
+  match n with [] => false | _ => negb (has_001 n) end.
+
 (* framing: per unit a 4-byte (true) or 3-byte (false) start code *)
 Definition start_code (four : bool) : list N := if four then [0; 0; 0; 1] else [0; 0; 1].
 Definition frame (l : list (bool * list N)) : list N :=
